@@ -448,6 +448,14 @@ class BehavioralRTLIRTypeEnforcerL2( BehavioralRTLIRTypeEnforcerL1 ):
   def visit_LoopVar( s, node ):
     s.mutate_datatype( node, f'loop variable {node.name}' )
 
+  def visit_BinOp( s, node ):
+    s.visit( node.left )
+    s.visit( node.right )
+    # An operation on two constants that was folded is a number: it takes the
+    # width of its context like a literal does ( Foo( x, 2*N ) -> { x, 8'd6 } )
+    if hasattr( node, '_value' ):
+      s.mutate_datatype( node, 'constant expression' )
+
   def visit_IfExp( s, node ):
     # The fact that we are here means both body and orelse should be
     # implicit. We need to perform two separate mutations on expressions
